@@ -1,12 +1,24 @@
 (* C12 - Fixed-point arithmetic is exactly rounded in the documented direction.
-   Property theorems only; each is closed by a lemma of C12/*.v.  Constants are the generated
-   names of Gen/C12_consts.v (regenerated from /repo on every run). *)
-From Coq Require Import ZArith List Bool.
+
+   Property theorems only; each is closed by a lemma of C12/*.v.  Constants are the generated names
+   of Gen/C12_consts.v (read from osmomath/decimal.go, int.go and the aliased SDK decimal on every
+   run): U36 = 10^BigDecPrecision, U18 = 10^DecPrecision, UDiff = 10^(BigDecPrecision-DecPrecision).
+   A decimal is its raw mantissa (value * 10^36 resp. 10^18); rceil / rtz / rhe n d are the exact
+   rational n/d rounded toward +infinity / toward zero / to nearest with ties to even.
+
+   Layers:  values  - the functions of Base/DecModel.v (what each operation returns);
+            cells   - C12/Model.v, Go's pointer semantics (who is written, aliasing, panics);
+            codecs  - C12/Codec.v.
+   The full statement of the property is [C12_full] at the end; it is FALSE of the faithful model
+   ([C12_full_refuted]: five clauses each fail for a specific function, all replayed on /repo and listed
+   in known_findings.json), so what is proved is named _partial or is stated for the functions it holds for. *)
+From Coq Require Import ZArith List Bool Lia.
 Import ListNotations.
-From Osmo Require Import Base.DecModel Gen.C12_consts C12.Rounding C12.Direction C12.Consts.
+From Osmo Require Import Base.DecModel Gen.C12_consts C12.Rounding C12.Direction C12.Consts
+  C12.Model C12.Heap C12.Frame C12.Refine C12.Corr C12.Codec C12.CodecProofs C12.Main.
 Open Scope Z_scope.
 
-(* what the three directions mean (characterising bounds of C12/Rounding.v) *)
+(* ================================================================== 1. what the three directions mean *)
 Theorem C12_ceil_is_ceiling : forall n d, 0 < d -> d * (rceil n d - 1) < n <= d * rceil n d.
 Proof. exact rceil_spec. Qed.
 Print Assumptions C12_ceil_is_ceiling.
@@ -21,18 +33,293 @@ Theorem C12_half_even_is_nearest_even : forall n d, 0 < d ->
   2 * Z.abs (d * rhe n d - n) <= d /\ (2 * Z.abs (d * rhe n d - n) = d -> Z.even (rhe n d) = true).
 Proof. exact rhe_spec. Qed.
 Print Assumptions C12_half_even_is_nearest_even.
+(* the bounds determine the value: each operator is the unique neighbouring representable value of its kind *)
+Theorem C12_directions_unique : forall n d r, 0 < d ->
+  (d * (r - 1) < n <= d * r -> r = rceil n d) /\
+  ((0 <= n -> d * r <= n < d * (r + 1)) -> (n <= 0 -> d * (r - 1) < n <= d * r) -> r = rtz n d) /\
+  (2 * Z.abs (d * r - n) <= d -> (2 * Z.abs (d * r - n) = d -> Z.even r = true) -> r = rhe n d).
+Proof. intros n d r Hd; repeat split; [apply rceil_unique|apply rtz_unique|apply rhe_unique]; assumption. Qed.
+Print Assumptions C12_directions_unique.
 Theorem C12_exact_when_representable : forall n d, 0 < d -> (d | n) ->
   rhe n d = n / d /\ rtz n d = n / d /\ rceil n d = n / d /\ rfloor n d = n / d.
 Proof. exact round_exact. Qed.
 Print Assumptions C12_exact_when_representable.
+Theorem C12_directions_monotone : forall n m d, 0 < d -> n <= m ->
+  rceil n d <= rceil m d /\ rtz n d <= rtz m d /\ rhe n d <= rhe m d.
+Proof. intros; repeat split; [apply rceil_mono|apply rtz_mono|apply rhe_mono]; assumption. Qed.
+Print Assumptions C12_directions_monotone.
 
-(* round-up division: the ceiling of the exact quotient for all four sign combinations *)
-Theorem C12_bd_quo_round_up_all_signs : forall a b, b <> 0 ->
-  bd_quo_round_up a b = rceil (a * 10 ^ BigDecPrecision) b.
-Proof. intros; rewrite <- P36_gen; apply bd_quo_round_up_dir; assumption. Qed.
-Print Assumptions C12_bd_quo_round_up_all_signs.
+(* ================================================================== 2. every operation rounds as its name says (values) *)
+Theorem C12_bigdec_binary_directions : forall a b,
+  bd_add a b = a + b /\ bd_sub a b = a - b /\ bd_mul_int a b = a * b /\
+  bd_mul a b = rhe (a * b) U36 /\ bd_mul_dec a b = rhe (a * b) U18 /\
+  bd_mul_truncate a b = rtz (a * b) U36 /\ bd_mul_truncate_dec a b = rtz (a * b) U18 /\
+  bd_mul_round_up a b = rceil (a * b) U36 /\ bd_mul_round_up_dec a b = rceil (a * b) U18 /\
+  bd_quo a b = rhe (rtz (a * (U36 * U36)) b) U36 /\ bd_quo_raw a b = rhe (rtz (a * U36) b) U36 /\
+  bd_quo_truncate a b = rtz (a * U36) b /\ bd_quo_truncate_dec a b = rtz (a * U18) b /\
+  bd_quo_int a b = rtz a b /\ bd_from_dec_mul_dec a b = a * b.
+Proof. exact bigdec_binary_directions. Qed.
+Print Assumptions C12_bigdec_binary_directions.
+(* the round-up divisions and conversion: ceiling of the exact quotient for all four sign combinations *)
+Theorem C12_bigdec_round_up_division_all_signs : forall a b, b <> 0 ->
+  bd_quo_round_up a b = rceil (a * U36) b /\ bd_quo_by_dec_round_up a b = rceil (a * U18) b /\
+  bd_quo_round_up_mut a b = rceil (a * U36) b /\ bd_quo_round_up_next_int_mut a b = rceil a b * U36.
+Proof. exact bigdec_round_up_division_all_signs. Qed.
+Print Assumptions C12_bigdec_round_up_division_all_signs.
+Theorem C12_bigdec_unary_directions : forall a,
+  bd_ceil a = rceil a U36 * U36 /\ bd_truncate_int a = rtz a U36 /\ bd_truncate_dec a = rtz a U36 * U36 /\
+  bd_round_int a = rhe a U36 /\ bd_to_dec a = rtz a UDiff /\ bd_to_dec_round_up a = rceil a UDiff /\
+  bd_from_dec a = a * UDiff /\ bd_from_int a = a * U36 /\
+  (forall k, bd_chop_precision k a = rtz a (10 ^ (BigDecPrecision - k)) * 10 ^ (BigDecPrecision - k)) /\
+  (forall k, bd_dec_with_precision k a = rtz a (10 ^ (BigDecPrecision - k)) * 10 ^ (DecPrecision - k)).
+Proof. exact bigdec_unary_directions. Qed.
+Print Assumptions C12_bigdec_unary_directions.
+Theorem C12_precision_conversion_exact : forall d, bd_to_dec (bd_from_dec d) = d /\ bd_to_dec_round_up (bd_from_dec d) = d.
+Proof. exact precision_conversion_exact. Qed.
+Print Assumptions C12_precision_conversion_exact.
+Theorem C12_dec_directions : forall a b,
+  d_mul a b = rhe (a * b) U18 /\ d_mul_truncate a b = rtz (a * b) U18 /\ d_mul_round_up a b = rceil (a * b) U18 /\
+  d_mul_int a b = a * b /\ d_quo a b = rhe (rtz (a * (U18 * U18)) b) U18 /\ d_quo_truncate a b = rtz (a * U18) b /\
+  d_quo_int a b = rtz a b /\ d_ceil a = rceil a U18 * U18 /\ d_truncate_int a = rtz a U18 /\
+  d_truncate_dec a = rtz a U18 * U18 /\ d_round_int a = rhe a U18.
+Proof. exact dec_directions. Qed.
+Print Assumptions C12_dec_directions.
+(* the dependency's 18-decimal QuoRoundUp: ceiling when the exact quotient is >= 0 ... *)
+Theorem C12_dec_quo_round_up_partial : forall a b, b <> 0 -> 0 <= a * b -> d_quo_round_up a b = rceil (a * U18) b.
+Proof. exact dec_quo_round_up_partial. Qed.
+Print Assumptions C12_dec_quo_round_up_partial.
+(* ... one unit above it for an inexact negative quotient (missing for the full statement: finding F5, not repairable from /repo) *)
+Theorem C12_dec_quo_round_up_opposite_signs : forall a b, b <> 0 -> a * b < 0 -> Z.rem (a * U18) b <> 0 ->
+  Z.quot (a * U18) b <> 0 -> d_quo_round_up a b = rceil (a * U18) b + 1.
+Proof. exact dec_quo_round_up_opposite_signs. Qed.
+Print Assumptions C12_dec_quo_round_up_opposite_signs.
+Theorem C12_dec_quo_round_up_refuted : exists a b, b <> 0 /\ d_quo_round_up a b <> rceil (a * P18) b.
+Proof. exact d_quo_round_up_refuted. Qed.
+Print Assumptions C12_dec_quo_round_up_refuted.
 
-Example C12_bd_quo_round_up_nonvacuous :
+(* ================================================================== 3. cells: the code computes those values, fails loudly, frames *)
+(* mut_spec / nonmut_spec m f chk dv (C12/Refine.v): on any heap, for receiver and argument cells (distinct for the
+   mutating form, arbitrary for the non-mutating one), m returns f a b - in the receiver resp. in a fresh cell - when
+   chk (f a b) holds, panics with the overflow panic when it does not (never a wrapped value), and with the
+   division panic iff dv and b = 0. *)
+Theorem C12_bigdec_cells_refine_values :
+  mut_spec AddMut bd_add bd_fits false /\ nonmut_spec Add bd_add bd_fits false /\
+  mut_spec SubMut bd_sub bd_fits false /\ nonmut_spec Sub bd_sub bd_fits false /\
+  mut_spec MulMut bd_mul bd_fits false /\ nonmut_spec Mul bd_mul bd_fits false /\
+  mut_spec MulDecMut bd_mul_dec bd_fits false /\ nonmut_spec MulDec bd_mul_dec bd_fits false /\
+  nonmut_spec MulTruncate bd_mul_truncate bd_fits false /\ nonmut_spec MulTruncateDec bd_mul_truncate_dec bd_fits false /\
+  nonmut_spec MulRoundUp bd_mul_round_up bd_fits false /\ nonmut_spec MulRoundUpDec bd_mul_round_up_dec bd_fits false /\
+  nonmut_spec MulInt bd_mul_int bd_fits false /\
+  mut_spec QuoMut bd_quo bd_fits true /\ nonmut_spec Quo bd_quo bd_fits true /\
+  mut_spec QuoTruncateMut bd_quo_truncate bd_fits true /\ nonmut_spec QuoTruncate bd_quo_truncate bd_fits true /\
+  mut_spec QuoTruncateDecMut bd_quo_truncate_dec bd_fits true /\ nonmut_spec QuoTruncateDec bd_quo_truncate_dec bd_fits true /\
+  mut_spec QuoRoundUpMut bd_quo_round_up_mut bd_fits true /\ nonmut_spec QuoRoundUp bd_quo_round_up bd_fits true /\
+  nonmut_spec QuoByDecRoundUp bd_quo_by_dec_round_up bd_fits true /\
+  mut_spec QuoRoundUpNextIntMut bd_quo_round_up_next_int_mut bd_fits true /\
+  nonmut_spec QuoInt bd_quo_int always_fits true /\
+  nonmut_spec NewBigDecFromDecMulDec bd_from_dec_mul_dec always_fits false.
+Proof. exact bigdec_cells_refine_values. Qed.
+Print Assumptions C12_bigdec_cells_refine_values.
+Theorem C12_bigdec_unary_cells_refine_values :
+  un_mut_spec NegMut (fun a => ok_out (- a)) /\ un_nonmut_spec Neg (fun a => ok_out (- a)) /\
+  un_mut_spec AbsMut (fun a => ok_out (Z.abs a)) /\ un_nonmut_spec Abs (fun a => ok_out (Z.abs a)) /\
+  un_mut_spec CeilMut (fun a => ok_out (bd_ceil a)) /\ un_nonmut_spec Ceil (fun a => ok_out (bd_ceil a)) /\
+  un_nonmut_spec TruncateInt (fun a => chk_out fits1024 (bd_truncate_int a)) /\
+  un_nonmut_spec TruncateDec (fun a => ok_out (bd_truncate_dec a)) /\
+  un_nonmut_spec RoundInt (fun a => chk_out fits1024 (bd_round_int a)) /\
+  un_nonmut_spec ToDec (fun a => ok_out (bd_to_dec a)) /\
+  un_nonmut_spec DecRoundUp (fun a => ok_out (bd_to_dec_round_up a)) /\
+  un_nonmut_spec BigDecFromDec (fun a => ok_out (bd_from_dec a)) /\
+  un_mut_spec BigDecFromDecMut (fun a => ok_out (bd_from_dec a)) /\
+  (forall i, un_nonmut_spec (fun d => MulInt64 d i) (fun a => expected bd_mul_int bd_fits false a i)) /\
+  (forall i, un_nonmut_spec (fun d => QuoRaw d i) (fun a => expected bd_quo_raw bd_fits true a i)) /\
+  (forall i, un_nonmut_spec (fun d => QuoInt64 d i) (fun a => expected bd_quo_int always_fits true a i)) /\
+  (forall k, 0 <= k -> un_mut_spec (fun d => ChopPrecisionMut d k) (fun a => if 36 <? k then (3, 0) else ok_out (bd_chop_precision k a))) /\
+  (forall k, 0 <= k -> un_nonmut_spec (fun d => ChopPrecision d k) (fun a => if 36 <? k then (3, 0) else ok_out (bd_chop_precision k a))) /\
+  (forall k, 0 <= k -> un_nonmut_spec (fun d => DecWithPrecision d k) (fun a => if 18 <? k then (3, 0) else ok_out (bd_dec_with_precision k a))).
+Proof. exact bigdec_unary_cells_refine_values. Qed.
+Print Assumptions C12_bigdec_unary_cells_refine_values.
+Theorem C12_dec_cells_refine_values :
+  mut_spec D_AddMut Z.add d_fits false /\ nonmut_spec (ImmutOp D_AddMut) Z.add d_fits false /\
+  mut_spec D_SubMut Z.sub d_fits false /\ nonmut_spec (ImmutOp D_SubMut) Z.sub d_fits false /\
+  mut_spec D_MulMut d_mul d_fits false /\ nonmut_spec (ImmutOp D_MulMut) d_mul d_fits false /\
+  mut_spec D_MulTruncateMut d_mul_truncate d_fits false /\ nonmut_spec (ImmutOp D_MulTruncateMut) d_mul_truncate d_fits false /\
+  mut_spec D_MulRoundUpMut d_mul_round_up d_fits false /\ nonmut_spec (ImmutOp D_MulRoundUpMut) d_mul_round_up d_fits false /\
+  mut_spec D_MulIntMut d_mul_int d_fits false /\ nonmut_spec (ImmutOp D_MulIntMut) d_mul_int d_fits false /\
+  mut_spec D_QuoMut d_quo d_fits true /\ nonmut_spec (ImmutOp D_QuoMut) d_quo d_fits true /\
+  mut_spec D_QuoTruncateMut d_quo_truncate d_fits true /\ nonmut_spec (ImmutOp D_QuoTruncateMut) d_quo_truncate d_fits true /\
+  mut_spec D_QuoRoundupMut d_quo_round_up d_fits true /\ nonmut_spec (ImmutOp D_QuoRoundupMut) d_quo_round_up d_fits true /\
+  mut_spec D_QuoIntMut d_quo_int always_fits true /\ nonmut_spec (ImmutOp D_QuoIntMut) d_quo_int always_fits true /\
+  un_nonmut_spec D_Ceil (fun a => chk_out d_fits (d_ceil a)) /\
+  un_nonmut_spec D_TruncateInt (fun a => chk_out fits256 (d_truncate_int a)) /\
+  un_nonmut_spec D_RoundInt (fun a => chk_out fits256 (d_round_int a)) /\
+  un_nonmut_spec D_TruncateDec (fun a => ok_out (d_truncate_dec a)).
+Proof. exact dec_cells_refine_values. Qed.
+Print Assumptions C12_dec_cells_refine_values.
+Theorem C12_bigint_cells_refine_values :
+  nonmut_spec BI_Add Z.add fits1024 false /\ nonmut_spec BI_Sub Z.sub fits1024 false /\
+  nonmut_spec BI_Quo Z.quot always_fits true /\ nonmut_spec BI_Mod emod always_fits true.
+Proof. exact bigint_cells_refine_values. Qed.
+Print Assumptions C12_bigint_cells_refine_values.
+
+(* mutating and non-mutating forms return the same outcome (value or panic kind) on distinct cells *)
+Theorem C12_bigdec_mut_forms_agree : forall h d d2, valid2 h d d2 ->
+  obs_of (AddMut d d2 h) = obs_of (Add d d2 h) /\
+  obs_of (SubMut d d2 h) = obs_of (Sub d d2 h) /\
+  obs_of (MulMut d d2 h) = obs_of (Mul d d2 h) /\
+  obs_of (MulDecMut d d2 h) = obs_of (MulDec d d2 h) /\
+  obs_of (QuoMut d d2 h) = obs_of (Quo d d2 h) /\
+  obs_of (QuoTruncateMut d d2 h) = obs_of (QuoTruncate d d2 h) /\
+  obs_of (QuoTruncateDecMut d d2 h) = obs_of (QuoTruncateDec d d2 h) /\
+  obs_of (QuoRoundUpMut d d2 h) = obs_of (QuoRoundUp d d2 h) /\
+  obs_of (NegMut d h) = obs_of (Neg d h) /\
+  obs_of (AbsMut d h) = obs_of (Abs d h) /\
+  obs_of (CeilMut d h) = obs_of (Ceil d h) /\
+  obs_of (BigDecFromDecMut d h) = obs_of (BigDecFromDec d h).
+Proof. exact bigdec_mut_forms_agree. Qed.
+Print Assumptions C12_bigdec_mut_forms_agree.
+Theorem C12_chop_precision_forms_agree : forall k h d, 0 <= k -> (d < next h)%nat ->
+  obs_of (ChopPrecisionMut d k h) = obs_of (ChopPrecision d k h).
+Proof. exact chop_precision_forms_agree. Qed.
+Print Assumptions C12_chop_precision_forms_agree.
+Theorem C12_dec_mut_forms_agree : forall h d d2, valid2 h d d2 ->
+  obs_of (D_AddMut d d2 h) = obs_of (ImmutOp D_AddMut d d2 h) /\
+  obs_of (D_SubMut d d2 h) = obs_of (ImmutOp D_SubMut d d2 h) /\
+  obs_of (D_MulMut d d2 h) = obs_of (ImmutOp D_MulMut d d2 h) /\
+  obs_of (D_MulTruncateMut d d2 h) = obs_of (ImmutOp D_MulTruncateMut d d2 h) /\
+  obs_of (D_MulRoundUpMut d d2 h) = obs_of (ImmutOp D_MulRoundUpMut d d2 h) /\
+  obs_of (D_MulIntMut d d2 h) = obs_of (ImmutOp D_MulIntMut d d2 h) /\
+  obs_of (D_QuoMut d d2 h) = obs_of (ImmutOp D_QuoMut d d2 h) /\
+  obs_of (D_QuoTruncateMut d d2 h) = obs_of (ImmutOp D_QuoTruncateMut d d2 h) /\
+  obs_of (D_QuoRoundupMut d d2 h) = obs_of (ImmutOp D_QuoRoundupMut d d2 h) /\
+  obs_of (D_QuoIntMut d d2 h) = obs_of (ImmutOp D_QuoIntMut d d2 h).
+Proof. exact dec_mut_forms_agree. Qed.
+Print Assumptions C12_dec_mut_forms_agree.
+(* aliased receiver = argument: fine for Add/Sub/Mul ... *)
+Theorem C12_aliased_mut_agree_partial : forall h d, (d < next h)%nat ->
+  obs_of (AddMut d d h) = obs_of (Add d d h) /\ obs_of (SubMut d d h) = obs_of (Sub d d h) /\
+  obs_of (MulMut d d h) = obs_of (Mul d d h).
+Proof. exact aliased_mut_agree. Qed.
+Print Assumptions C12_aliased_mut_agree_partial.
+(* ... missing for the full statement: the mutating divisions (finding C12-ALIAS; x.QuoMut(x) = 0, x.Quo(x) = 1) *)
+Theorem C12_aliased_quo_mut_refuted :
+  obs_of (QuoMut 0 0 h5) = (0, 0) /\ obs_of (Quo 0 0 h5) = (0, P36) /\
+  obs_of (QuoTruncateMut 0 0 h5) = (0, 1) /\ obs_of (QuoTruncate 0 0 h5) = (0, P36) /\
+  obs_of (QuoRoundUpMut 0 0 h5) = (0, 1) /\ obs_of (QuoRoundUp 0 0 h5) = (0, P36) /\
+  obs_of (D_QuoMut 0 0 (init_heap (5 * P18) 0)) = (0, 0) /\ obs_of (ImmutOp D_QuoMut 0 0 (init_heap (5 * P18) 0)) = (0, P18).
+Proof. exact aliased_quo_mut_refuted. Qed.
+Print Assumptions C12_aliased_quo_mut_refuted.
+
+(* non-mutating forms leave operands (and every other existing cell) untouched, on every heap, for every method
+   listed by nonmut_op, whether the call returns or panics; mutating forms write their receiver only *)
+Theorem C12_nonmut_forms_leave_operands_untouched : forall o x y a b k h,
+  nonmut_op o = true -> untouched h (exec o x y a b k h).
+Proof. exact nonmut_frame. Qed.
+Print Assumptions C12_nonmut_forms_leave_operands_untouched.
+Theorem C12_mut_forms_write_receiver_only : forall o x y a b k h,
+  mut_op o = true -> only_cell x h (exec o x y a b k h).
+Proof. exact mut_frame. Qed.
+Print Assumptions C12_mut_forms_write_receiver_only.
+(* missing for the full statement: SigFigRound is not in nonmut_op - it multiplies its operand in place (finding C12-SIGFIG-MUT) *)
+Theorem C12_sigfig_mutates_operand_refuted :
+  match SigFigRound 0 1 (init_heap (5 * 10 ^ 16) 100) with
+  | Ok h' r => rd h' r = 5 * 10 ^ 16 /\ rd h' 0%nat = 5 * 10 ^ 17
+  | Panic _ _ => False
+  end.
+Proof. exact sigfig_mutates_operand_refuted. Qed.
+Print Assumptions C12_sigfig_mutates_operand_refuted.
+(* missing for the full statement: results beyond the bound that do not fail (finding C12-UNCHECKED), and a wrapping
+   conversion of the uint64 divisor (finding C12-DIVU64) *)
+Theorem C12_ceil_unchecked_refuted :
+  let a := 2 ^ 1144 - 1 in bd_fits a = true /\ obs_of (Ceil 0 (init_heap a 0)) = (0, bd_ceil a) /\ bd_fits (bd_ceil a) = false.
+Proof. exact ceil_unchecked_refuted. Qed.
+Print Assumptions C12_ceil_unchecked_refuted.
+Theorem C12_dec_conversion_unchecked_refuted :
+  let a := 2 ^ 400 in bd_fits a = true /\ obs_of (ToDec 0 (init_heap a 0)) = (0, bd_to_dec a) /\ d_fits (bd_to_dec a) = false.
+Proof. exact dec_conversion_unchecked_refuted. Qed.
+Print Assumptions C12_dec_conversion_unchecked_refuted.
+Theorem C12_div_u64_wraps_refuted :
+  obs_of (DivIntByU64ToBigDec 0 (2 ^ 63) 1 (init_heap 10 0)) = (0, -1084202172485504434) /\
+  rceil (10 * P36) (2 ^ 63) = 1084202172485504435.
+Proof. exact div_u64_wraps_refuted. Qed.
+Print Assumptions C12_div_u64_wraps_refuted.
+
+(* ================================================================== 4. encodings *)
+(* text, binary and JSON round trips of every BigDec the parsers' own bound admits (bitlen <= 1024) ... *)
+Theorem C12_codec_roundtrip_partial : forall d, bitlen d <= from_str_bound -> bitlen d <= unmarshal_bound ->
+  bd_from_str (bd_string d) = DOk d /\ bd_unmarshal (bd_marshal d) = DOk d /\ bd_unmarshal_json (bd_marshal_json d) = DOk d.
+Proof. exact codec_roundtrip_partial. Qed.
+Print Assumptions C12_codec_roundtrip_partial.
+(* ... missing for the full statement: every value above that bound - arithmetic produces them up to 1144 bits - is
+   rejected by all three decoders (finding F8) *)
+Theorem C12_codec_roundtrip_above_bound_refuted : forall d, from_str_bound < bitlen d ->
+  bd_from_str (bd_string d) = DErr /\ bd_unmarshal (bd_marshal d) = DErr /\ bd_unmarshal_json (bd_marshal_json d) = DErr.
+Proof. exact codec_roundtrip_above_bound_refuted. Qed.
+Print Assumptions C12_codec_roundtrip_above_bound_refuted.
+Theorem C12_codec_roundtrip_refuted : exists d, bitlen d <= assert_bound /\ bd_from_str (bd_string d) <> DOk d.
+Proof. exact codec_roundtrip_refuted. Qed.
+Print Assumptions C12_codec_roundtrip_refuted.
+(* the 18-decimal type and BigInt round-trip every representable value *)
+Theorem C12_dec_codec_roundtrip : forall d, d_fits d = true ->
+  d_from_str (d_string d) = DOk d /\ d_unmarshal (int_text d) = DOk d /\ d_unmarshal_json (d_marshal_json d) = DOk d.
+Proof. exact dec_codec_roundtrip. Qed.
+Print Assumptions C12_dec_codec_roundtrip.
+Theorem C12_bigint_codec_roundtrip : forall i, bitlen i <= maxBitLen ->
+  bi_from_string (int_text i) = DOk i /\ bi_unmarshal (int_text i) = DOk i /\ bi_unmarshal_json (bi_marshal_json i) = DOk i.
+Proof. exact bigint_codec_roundtrip. Qed.
+Print Assumptions C12_bigint_codec_roundtrip.
+(* malformed text is rejected: empty, a lone sign, two decimal points, more decimals than the precision *)
+Theorem C12_malformed_text_rejected : forall prec fits,
+  dec_from_str prec fits [] = DErr /\ dec_from_str prec fits [c_minus] = DErr /\
+  (forall s, (2 <= count_occ Z.eq_dec s c_dot)%nat -> dec_from_str prec fits s = DErr) /\
+  (forall i f, Forall is_digit i -> i <> [] -> Forall is_digit f -> (prec < length f)%nat ->
+     dec_from_str prec fits (i ++ c_dot :: f) = DErr /\ dec_from_str prec fits (c_minus :: i ++ c_dot :: f) = DErr).
+Proof.
+  intros; repeat split; [apply reject_two_dots|apply reject_too_many_decimals|apply reject_too_many_decimals]; assumption.
+Qed.
+Print Assumptions C12_malformed_text_rejected.
+
+(* ================================================================== 5. the full statement *)
+Definition C12_directions_full : Prop :=
+  (forall a b, b <> 0 -> d_quo_round_up a b = rceil (a * U18) b) /\           (* fails: F5 *)
+  (forall a b, b <> 0 -> bd_quo_round_up a b = rceil (a * U36) b).            (* holds (F1 repaired) *)
+Definition C12_mut_eq_full : Prop :=
+  forall h d d2, (d < next h)%nat -> (d2 < next h)%nat ->                      (* d = d2 allowed: fails, C12-ALIAS *)
+  obs_of (QuoMut d d2 h) = obs_of (Quo d d2 h) /\ obs_of (MulMut d d2 h) = obs_of (Mul d d2 h).
+Definition C12_frame_full : Prop :=
+  forall h d t, (d < next h)%nat -> (t < next h)%nat -> untouched h (SigFigRound d t h).   (* fails: C12-SIGFIG-MUT *)
+Definition C12_overflow_full : Prop :=
+  forall h d, (d < next h)%nat -> bd_fits (rd h d) = true ->                  (* fails: C12-UNCHECKED *)
+  match Ceil d h with Ok h' r => bd_fits (rd h' r) = true | Panic _ _ => True end.
+Definition C12_codec_full : Prop :=
+  forall d, bd_fits d = true -> bd_from_str (bd_string d) = DOk d.            (* fails: F8 *)
+Definition C12_full : Prop :=
+  C12_directions_full /\ C12_mut_eq_full /\ C12_frame_full /\ C12_overflow_full /\ C12_codec_full.
+
+Theorem C12_full_refuted :
+  ~ C12_directions_full /\ ~ C12_mut_eq_full /\ ~ C12_frame_full /\ ~ C12_overflow_full /\ ~ C12_codec_full.
+Proof. exact full_refuted. Qed.
+Print Assumptions C12_full_refuted.
+
+(* ================================================================== non-vacuity *)
+Example C12_round_up_division_nonvacuous :
   bd_quo_round_up P36 (-3 * P36) = -333333333333333333333333333333333333 /\
-  bd_quo_round_up (- P36) (-3 * P36) = 333333333333333333333333333333333334.
-Proof. split; vm_compute; reflexivity. Qed.
+  bd_quo_round_up (- P36) (-3 * P36) = 333333333333333333333333333333333334 /\
+  bd_quo_round_up_next_int_mut (-7 * P36) (2 * P36) = -3 * P36 /\ bd_to_dec_round_up (-15 * 10 ^ 17) = -1.
+Proof. repeat split; vm_compute; reflexivity. Qed.
+Example C12_half_even_nonvacuous :
+  bd_mul (5 * 10 ^ 35) 1 = 0 /\ bd_mul (5 * 10 ^ 35) 3 = 2 /\ bd_mul (5 * 10 ^ 35) (-3) = -2 /\ bd_mul (5 * 10 ^ 35) 5 = 2 /\
+  bd_quo 1 (2 * P36) = 0 /\ bd_quo 3 (2 * P36) = 2.
+Proof. repeat split; vm_compute; reflexivity. Qed.
+Example C12_cells_nonvacuous :
+  valid2 (init_heap (3 * P36) (-7 * P36)) 0 1 /\
+  obs_of (QuoMut 0 1 (init_heap (3 * P36) (-7 * P36))) = (0, -428571428571428571428571428571428571) /\
+  obs_of (MulMut 0 1 (init_heap (2 ^ 1100) (2 ^ 200))) = (1, 0) /\
+  obs_of (Quo 0 1 (init_heap 5 0)) = (2, 0) /\
+  nonmut_op OBD_QuoRoundUp = true /\ mut_op OBD_QuoRoundUpMut = true.
+Proof. repeat split; try (vm_compute; reflexivity); cbn; try lia; discriminate. Qed.
+Example C12_codec_nonvacuous :
+  bitlen (- (2 ^ 1024 - 1)) <= from_str_bound /\
+  bd_string (-15 * 10 ^ 35 - 1) = [45; 49; 46; 53] ++ repeat 48 34 ++ [49] /\
+  bd_from_str [45; 48; 46; 48] = DOk 0.
+Proof. repeat split; vm_compute; try reflexivity; discriminate. Qed.
